@@ -3,6 +3,7 @@ module verifharness
 go 1.21
 
 require (
+	github.com/robertkrimen/otto v0.0.0-20191219234010-c382bd3c16ff
 	github.com/robfig/gettext v0.0.0-20200526193151-a093425df149
 	github.com/robfig/soy v0.0.0
 )
@@ -10,6 +11,7 @@ require (
 require (
 	github.com/fsnotify/fsnotify v1.4.9 // indirect
 	golang.org/x/sys v0.0.0-20220722155257-8c9f86f7a55f // indirect
+	gopkg.in/sourcemap.v1 v1.0.5 // indirect
 	golang.org/x/text v0.3.8 // indirect
 )
 
